@@ -14,7 +14,12 @@
 (*                                                                              *)
 (* S  = [desc, sd, query, mutation, subscription, types, dirs]                  *)
 (*        sd = the SDL carries an explicit `schema {..}` definition; ""=absent  *)
-(* T  = [name, kind, desc, fields, ifaces, members, values, inputs, url, tags]  *)
+(* T  = [name, kind, desc, fields, ifaces, members, values, inputs, url, tags,  *)
+(*       ext]   ext = how many trailing fields / values / input fields / members *)
+(*       (scalar: its directives) are DECLARED IN A TYPE EXTENSION (`extend type *)
+(*       T {..}` at the end of the document); the type system is the merged one *)
+(* S also has stags (directives applied to the schema definition) and xroots    *)
+(*       (mutation / subscription roots declared in `extend schema {..}`)       *)
 (* F  = [name, desc, type, args, dep, tags]     tags = applied custom directives*)
 (* IV = [name, desc, type, def, dep, tags]      arguments and input fields      *)
 (* EV = [name, desc, dep, tags]                 (tags: type-system directive    *)
@@ -47,7 +52,7 @@ InputVal(nm, ref, def) == [name |-> nm, desc |-> "", type |-> ref, def |-> def, 
 Field(nm, ref) == [name |-> nm, desc |-> "", type |-> ref, args |-> <<>>, dep |-> NoDep, tags |-> <<>>]
 EnumVal(nm) == [name |-> nm, desc |-> "", dep |-> NoDep, tags |-> <<>>]
 TypeDef(nm, kind) == [name |-> nm, kind |-> kind, desc |-> "", fields |-> <<>>, ifaces |-> <<>>,
-                      members |-> <<>>, values |-> <<>>, inputs |-> <<>>, url |-> "", tags |-> <<>>]
+                      members |-> <<>>, values |-> <<>>, inputs |-> <<>>, url |-> "", tags |-> <<>>, ext |-> 0]
 DirDef(nm, locs, rep) == [name |-> nm, desc |-> "", locs |-> locs, rep |-> rep, args |-> <<>>]
 
 \* ------------------------------------------------------------------ built-ins
@@ -237,6 +242,14 @@ DirOK(S, d) ==
   /\ Len(d.locs) > 0 /\ NoDup(d.locs) /\ Range(d.locs) \subseteq AllLocs
   /\ InputValsOK(S, d.args, "ARGUMENT_DEFINITION")
 
+\* what a type extension can carry: the definition itself keeps at least one element
+ExtCount(t) == CASE t.kind \in {"OBJECT", "INTERFACE"} -> Len(t.fields)
+                 [] t.kind = "UNION" -> Len(t.members)
+                 [] t.kind = "ENUM" -> Len(t.values)
+                 [] t.kind = "INPUT_OBJECT" -> Len(t.inputs)
+                 [] OTHER -> IF t.url # "" \/ Len(t.tags) > 0 THEN 2 ELSE 1   \* scalar: ext <= 1 iff it has directives
+ExtOK(t) == t.ext >= 0 /\ t.ext < ExtCount(t)
+
 WF(S) ==
   /\ NoDup(NameSeq(S.types))
   /\ NameSet(S.types) \cap (BuiltinScalars \cup MetaTypeNames) = {}
@@ -248,7 +261,9 @@ WF(S) ==
   /\ ~S.sd => /\ S.desc = "" /\ S.query = "Query"
               /\ S.mutation = (IF Has(S.types, "Mutation") THEN "Mutation" ELSE "")
               /\ S.subscription = (IF Has(S.types, "Subscription") THEN "Subscription" ELSE "")
-  /\ \A i \in DOMAIN S.types : TypeOK(S, S.types[i]) /\ TagsOK(S, S.types[i].tags, KindLoc(S.types[i].kind))
+  /\ \A i \in DOMAIN S.types : TypeOK(S, S.types[i]) /\ TagsOK(S, S.types[i].tags, KindLoc(S.types[i].kind)) /\ ExtOK(S.types[i])
+  /\ TagsOK(S, S.stags, "SCHEMA") /\ (Len(S.stags) > 0 => S.sd)
+  /\ S.xroots => (S.sd /\ (S.mutation # "" \/ S.subscription # ""))
   /\ NoDup(NameSeq(S.dirs))
   /\ \A i \in DOMAIN S.dirs : DirOK(S, S.dirs[i])
 =============================================================================
